@@ -102,8 +102,10 @@ def _gen(seed: int, i: int, tier: str) -> dict:
             body.append(["reboot", rng.choice(known), rng.random() < 0.8])
         elif r < 0.77:
             body.append(["clock", rng.choice([-86400, -3600, -1, 1, 60, 3600, 86400 * 365])])
-        elif r < 0.82:
+        elif r < 0.80:
             body.append(["sleep", rng.choice([0.5, 1, 59, 3600])])
+        elif r < 0.82:
+            body.append(["reenter"])
         elif r < 0.87 and is2x:
             k = rng.choice(known)
             body.append(["line", G.wake_line(proto, k, rng.randint(0, 9))])
